@@ -62,6 +62,10 @@ var c07terms = []c07term{
 	{"abort-in-nested-try", "global (L, STARTED)\nspin := func() {\n  STARTED()\n  for {\n  }\n}\nguard := func() {\n  try {\n    return spin()\n  } catch e {\n    return \"guard\"\n  }\n}\nouter := func() {\n  try {\n    return guard()\n  } finally {\n    L(\"never\")\n  }\n}\nreturn outer()", true, "loop"},
 	// a Go module with nested mutable attributes is changed in place by the script
 	{"builtin-module-nested-mutation", "global L\np := import(\"plugins\")\np.registry[\"k\"] = true\np.nested.inner[\"k\"] = 1\np.nested.arr[0][\"k\"] = 2\np.state.n += 1\np.log[0] += 10\np.buf[0] = 7\np.sync[\"k\"] = 3\np.list = append(p.list, 1)\np.version = 2\nreturn [len(p.registry), p.state.n]", true, ""},
+	// the run is aborted / dies while a script function runs on a child VM inside a Go callback
+	{"abort-in-child-vm", "global (L, STARTED, CALL)\nspin := func() {\n  STARTED()\n  for {\n  }\n}\ntry {\n  return CALL(spin)\n} finally {\n  L(\"never\")\n}", true, "loop"},
+	{"error-in-child-vm", "global (L, CALL)\nbad := func(n) {\n  try {\n    return [1][n]\n  } finally {\n    L(\"child fin\")\n  }\n}\nreturn CALL(bad, 5)", true, ""},
+	{"panic-in-child-vm", "global (L, CALL, PANIC)\nreturn CALL(func() {\n  x := [1, 2, 3]\n  return PANIC()\n})", true, ""},
 	// the run dies inside a callee while the main function is inside a try statement
 	{"abort-in-callee-under-main-try", "global (L, STARTED)\nspin := func() {\n  STARTED()\n  for {\n  }\n}\ntry {\n  x := [1, 2, 3]\n  return spin()\n} catch e {\n  return \"main caught\"\n} finally {\n  L(\"never\")\n}", true, "loop"},
 	{"value-stack-overflow-under-main-try", "global L\nvar r\nr = func(a, b, c, d, e, f, g, h) {\n  x1 := a\n  x2 := b\n  return 1 + r(x1, x2, c, d, e, f, g, h)\n}\ntry {\n  return r(1, 2, 3, 4, 5, 6, 7, 8)\n} catch e {\n  return \"main caught\"\n}", true, ""},
@@ -86,6 +90,8 @@ var c07observers = []string{
 	"global L\ng := func() {\n  return [1][5]\n}\ntry {\n  g()\n} catch e {\n  L(\"main caught\", e.Name)\n}\nh := func() {\n  return 7\n}\nreturn [h(), h()]",
 	"global L\ng3 := func() {\n  throw error(\"deep\")\n}\ng2 := func() {\n  x := g3()\n  return x\n}\ng1 := func() {\n  x := g2()\n  return x\n}\ntry {\n  g1()\n} catch e {\n  L(\"main caught\", e.Message)\n}\nk := func(a) {\n  return a + 1\n}\nreturn [k(1), k(2)]",
 	"global L\np := import(\"plugins\")\nL(len(p.registry), len(p.nested.inner), len(p.nested.arr[0]), p.state.n, p.log[0], p.buf[0], len(p.sync), len(p.list), p.version)\np.state.n += 5\np.registry[\"o\"] = 1\nreturn [p.state.n, len(import(\"plugins\").registry)]",
+	// script functions run on child VMs (Invoker) by the observer
+	"global (L, CALL)\nf := func(x) {\n  return x + 1\n}\nr := [CALL(f, 1), CALL(func() {\n  try {\n    throw \"t\"\n  } catch e {\n    return \"c\"\n  }\n}), CALL(func() { return CALL(f, 10) })]\nL(r)\ntry {\n  CALL(func() { return [1][3] })\n} catch e {\n  L(e.Name)\n}\nreturn r",
 	// main-level exits that an own try statement does not cover: a stale handler left in frame 0 would intercept them
 	"global L\ntry {\n  L(1)\n} finally {\n  L(2)\n}\nthrow error(\"uncaught-main\")",
 	"global L\nx := [1]\nL(0)\nreturn x[3]",
@@ -174,6 +180,7 @@ func c07runItem(vm *ugo.VM, t c07term, bc *ugo.Bytecode) (kind string) {
 	rec := &canon.Recorder{}
 	var started, release atomic.Bool
 	g := ugo.Map{"L": rec.Func(), "G": ugo.Int(3),
+		"CALL":    c07callGlobal(),
 		"PANIC":   &ugo.Function{Name: "PANIC", Value: func(...ugo.Object) (ugo.Object, error) { panic("history panic") }},
 		"STARTED": &ugo.Function{Name: "STARTED", Value: func(...ugo.Object) (ugo.Object, error) { started.Store(true); return ugo.Undefined, nil }},
 		"BLOCK": &ugo.Function{Name: "BLOCK", Value: func(...ugo.Object) (ugo.Object, error) {
@@ -201,8 +208,15 @@ func c07runItem(vm *ugo.VM, t c07term, bc *ugo.Bytecode) (kind string) {
 		}
 	}()
 	if t.abort != "" {
+		// wait until the script is inside its endless part (or until the run ended by itself, e.g. with an error)
+	waitStart:
 		for !started.Load() {
-			time.Sleep(50 * time.Microsecond)
+			select {
+			case <-done:
+				break waitStart
+			default:
+				time.Sleep(50 * time.Microsecond)
+			}
 		}
 		vm.Abort()
 		release.Store(true)
@@ -224,15 +238,40 @@ func c07runItem(vm *ugo.VM, t c07term, bc *ugo.Bytecode) (kind string) {
 	return kind
 }
 
+// c07callGlobal: CALL(f, args...) runs the script function f on a pooled child VM (what Go callbacks such as strings.Map do).
+func c07callGlobal() *ugo.Function {
+	return &ugo.Function{Name: "CALL", ValueEx: func(c ugo.Call) (ugo.Object, error) {
+		if c.Len() < 1 {
+			return ugo.Undefined, nil
+		}
+		var args []ugo.Object
+		for i := 1; i < c.Len(); i++ {
+			args = append(args, c.Get(i))
+		}
+		inv := ugo.NewInvoker(c.VM(), c.Get(0))
+		inv.Acquire()
+		defer inv.Release()
+		return inv.Invoke(args...)
+	}}
+}
+
 func (m c07) observe(vm *ugo.VM, bc *ugo.Bytecode) canon.Outcome {
 	rec := &canon.Recorder{}
-	g := ugo.Map{"L": rec.Func(), "G": ugo.Int(3)}
+	g := ugo.Map{"L": rec.Func(), "G": ugo.Int(3), "CALL": c07callGlobal()}
 	vm.SetRecover(true)
 	return canon.RunBytecode(bc, canon.RunOpts{VM: vm, Globals: g, Args: []ugo.Object{ugo.Int(7), ugo.String("x")}, LogOf: rec.String})
 }
 
 // runCase executes a whole history then the observer; hist is a list of (term index, transition index).
+// c07watchdogs counts history items of this worker that only ended through the 20 s watchdog; after two of them the
+// worker stops running histories (each costs 20 s and leaves a goroutine behind) - the run then reports what it has.
+var c07watchdogs int
+
 func (m c07) runCase(c *core.Ctx, env *c07env, hist [][2]int, lastTransition int, observerSrc string, genTag string) (nontrivial bool) {
+	if c07watchdogs >= 2 {
+		c.Count("skipped_after_watchdogs")
+		return false
+	}
 	obs := env.compile(observerSrc)
 	if obs == nil {
 		c.Count("discarded_compile_error")
@@ -272,6 +311,7 @@ func (m c07) runCase(c *core.Ctx, env *c07env, hist [][2]int, lastTransition int
 		kind := c07runItem(vm, t, bc)
 		if kind == "hung" || kind == "watchdog" {
 			c.Inconclusive("history item " + t.name + " needed the watchdog")
+			c07watchdogs++
 			return false
 		}
 		c.Count("term." + t.name)
